@@ -3,7 +3,8 @@
    the current tree ([fixed = true]); and a non-trivial history for the non-vacuity example. *)
 From stdpp Require Import gmap strings.
 From Coq Require Import NArith.
-From Synnax Require Import Generated.Consts_C15 Core.Channel Core.ChannelInv.
+From Synnax Require Import Generated.Consts_C15 Core.Channel Core.ChannelInv Core.ChannelCreate Core.ChannelCons
+  Core.ChannelConsCreate.
 Local Open Scope N_scope.
 
 (* an empty cluster of two nodes *)
@@ -119,4 +120,20 @@ Proof.
     apply lookup_insert_Some in Ev as [[_ <-]|[? Ev]]; [vm_compute; discriminate|].
     rewrite lookup_empty in Ev. discriminate.
   - vm_compute. eauto.
+Qed.
+
+Lemma w_s0_Cons : Cons w_s0.
+Proof.
+  constructor.
+  - intros k c H. cbn [s_tab w_s0] in H. rewrite lookup_empty in H. discriminate.
+  - intros n k e H. unfold eng_of in H. destruct (s_eng w_s0 !! n) as [en|] eqn:En.
+    + apply w_s0_nodes in En as [_ ->]. simpl in H. rewrite lookup_empty in H. discriminate.
+    + simpl in H. rewrite lookup_empty in H. discriminate.
+Qed.
+
+Lemma w_ops_plain : Forall plain_op w_ops /\ all_ok_run true w_s0 w_ops.
+Proof.
+  split.
+  - repeat constructor; try (vm_compute; reflexivity); try (apply NoDup_singleton); try (intros H; inversion H).
+  - vm_compute. tauto.
 Qed.
